@@ -229,6 +229,21 @@ func genQOps(rc *RunCtx, c QCfg) []Op {
 			o.Burst = true
 		}
 		add(o)
+		if o.Kind == "sub" && (rc.Prop == "C08" || rc.Prop == "C01" || rc.Prop == "ALL") && r.Chance(1, 5) {
+			// a later subscribe to the same topic while everybody else on it leaves
+			add(Op{Kind: "sub", A: o.A, B: int64(r.Intn(8)), C: o.C, D: genSub(r, c, rc.Prop).D, S: "raceclose"})
+		} else if o.Kind == "sub" && (rc.Prop == "C08" || rc.Prop == "ALL") && r.Chance(1, 4) {
+			// the same on an ephemeral topic, where the last consumer leaving deletes the topic
+			for i, tn := range c.Topics {
+				if len(tn) > 10 && tn[len(tn)-10:] == "#ephemeral" {
+					ch := int64(r.Intn(8))
+					add(Op{Kind: "sub", A: int64(i), B: ch, C: 1, D: genSub(r, c, rc.Prop).D})
+					add(Op{Kind: "sub", A: int64(i), B: int64(r.Pick(int(ch), r.Intn(8))), C: 1, D: genSub(r, c, rc.Prop).D, S: "raceclose"})
+					add(Op{Kind: "pub", A: 0, B: int64(i)})
+					add(Op{Kind: "stats"})
+				}
+			}
+		}
 		if o.Kind == "sub" && r.Chance(1, 4) {
 			// a command on a consumer connection at the instant its output
 			// buffer timer fires, with messages sitting in the buffer
